@@ -103,10 +103,19 @@ func c11Moments(c *ctx) {
 			continue
 		}
 		s, _ := safeSolar(m[0], m[1], m[2], m[3], m[4], m[5])
+		// every other moment keeps ONE lunar object and chart for both conventions (read everything under 2, switch the
+		// same chart to 1, read everything again): "the current convention" must be what every accessor uses
+		var shared *calendar.Lunar
+		if i%2 == 0 {
+			try(func() { shared = s.GetLunar() })
+		}
 		for _, sect := range []int{2, 1} {
 			f := obj{"ev": "C11Moment", "at": m[:], "sect": sect}
 			p, _ := try(func() {
-				l := s.GetLunar()
+				l := shared
+				if l == nil {
+					l = s.GetLunar()
+				}
 				ec := l.GetEightChar()
 				ec.SetSect(sect)
 				objs := map[string]interface{}{"Solar": s, "Lunar": l, "LunarTime": l.GetTime(), "EightChar": ec,
